@@ -1,5 +1,5 @@
 #!/bin/bash
-# usage: tools/seed_import.sh <Cxx> <k>   — copies a sub-agent delivery from /tmp/seed/<Cxx>.out into /verif/seeded/<Cxx>-<k>/
-P=$1; K=$2; OUT=/tmp/seed/$P.out; D=/verif/seeded/$P-$K
+# usage: tools/seed_import.sh <delivery dir name under /tmp/seed, e.g. C11r2.out> <k> <seed name e.g. C11-3>
+OUT=/tmp/seed/$1; K=$2; D=/verif/seeded/$3
 mkdir -p $D
 cp $OUT/patch$K.diff $D/patch.diff; cp $OUT/demo${K}_test.go $D/demo_test.go; cp $OUT/meta$K.json $D/meta.agent.json
